@@ -184,6 +184,9 @@ impl Binder {
         {
             ty = DataType::Blob(None);
         }
+        if !crate::types::DataType::is_supported(&ty) {
+            return Err(ErrorKind::Todo(format!("type {ty}")).into());
+        }
         let ty = self.egraph.add(Node::Type((&ty).into()));
         Ok(self.egraph.add(Node::Cast([ty, expr])))
     }
